@@ -16,15 +16,19 @@ fn ascii_text<const N: usize>() -> [u8; N] {
     raw
 }
 
-// C34: the planned ranges partition the text: contiguous from 0 to the
-// character count, each non-empty, and the slices concatenate to the text.
-fn partition<const N: usize>(chunk_chars: usize) {
-    let raw = ascii_text::<N>();
-    let text = unsafe { core::str::from_utf8_unchecked(&raw) };
+// C34: the planned ranges partition the text: contiguous from 0 to the character count, each
+// non-empty, and the slices concatenate to the text.  The TEXT is concrete per instance
+// (char_indices over symbolic bytes is intractable: every attempt ran out of memory); the
+// chunk size is symbolic, so every split position the chooser can pick on that text is covered.
+fn partition(text: &str, lo: usize, hi: usize) {
+    let raw = text.as_bytes();
+    let n = raw.len();
+    let chunk_chars: usize = kani::any();
+    kani::assume(chunk_chars >= lo && chunk_chars <= hi);
     let m = build_chunk_manifest(text, chunk_chars);
     match &m {
         Some(man) => {
-            assert!(N > chunk_chars, "[C34] a text not longer than one chunk was split");
+            assert!(n > chunk_chars, "[C34] a text not longer than one chunk was split");
             assert!(!man.chunks.is_empty(), "[C34] chunk plan without chunks");
             let mut expect_start = 0usize;
             let mut i = 0;
@@ -32,7 +36,7 @@ fn partition<const N: usize>(chunk_chars: usize) {
                 let r = &man.chunks[i];
                 assert!(r.start == expect_start, "[C34] chunk ranges are not contiguous (gap or overlap)");
                 assert!(r.end > r.start, "[C34] empty chunk range");
-                assert!(r.end <= N, "[C34] chunk range beyond the end of the text");
+                assert!(r.end <= n, "[C34] chunk range beyond the end of the text");
                 let piece = slice_text_range(text, r);
                 assert!(piece.len() == r.end - r.start, "[C34] chunk text length differs from its range");
                 let pb = piece.as_bytes();
@@ -45,51 +49,55 @@ fn partition<const N: usize>(chunk_chars: usize) {
                 leak(piece);
                 i += 1;
             }
-            assert!(expect_start == N, "[C34] chunk ranges do not end at the character count (text lost)");
-            kani::cover!(man.chunks.len() >= 2, "split into several chunks");
+            assert!(expect_start == n, "[C34] chunk ranges do not end at the character count (text lost)");
+            kani::cover!(man.chunks.len() >= 3, "split into several chunks");
         }
-        None => assert!(N <= chunk_chars || chunk_chars == 0, "[C34] a text longer than one chunk was not planned"),
+        None => assert!(n <= chunk_chars || chunk_chars == 0, "[C34] a text longer than one chunk was not planned"),
     }
     leak(m);
 }
 verif_proof! { [C34]
-    #[kani::unwind(9)]
-    fn c34_partition_6_by_2() { partition::<6>(2); }
+    #[kani::unwind(14)]
+    fn c34_partition_sentences() { partition("ab. cd. ef.", 1, 12); }
 }
 verif_proof! { [C34]
-    #[kani::unwind(9)]
-    fn c34_partition_7_by_3() { partition::<7>(3); }
+    #[kani::unwind(14)]
+    fn c34_partition_lines_and_words() { partition("ab cd\nef gh", 1, 12); }
+}
+verif_proof! { [C34]
+    #[kani::unwind(14)]
+    fn c34_partition_no_separator() { partition("abcdefghij", 0, 11); }
 }
 
-// the boundary chooser with a SMALL slack (production uses max(chunk/5, 32)):
-// never beyond the text, and never beyond the forward window.
+// the boundary chooser on symbolic characters with a SMALL slack (production: max(chunk/5, 32)):
+// never beyond the text, never beyond the forward window, cuts before the target only at separators
 verif_proof! { [C34]
-    #[kani::unwind(9)]
+    #[kani::unwind(8)]
     fn c34_choose_boundary_small_slack() {
-        let raw = ascii_text::<7>();
-        let mut chars: Vec<(usize, char)> = Vec::new();
+        let cls: [u8; 6] = kani::any();
+        let mut chars: [(usize, char); 7] = [(0, 'a'); 7];
+        let mut raw = [b'a'; 6];
         let mut i = 0;
-        while i < 7 {
-            chars.push((i, raw[i] as char));
+        while i < 6 {
+            kani::assume(cls[i] < 4);
+            let c = match cls[i] { 0 => b'a', 1 => b'.', 2 => b' ', _ => b'\n' };
+            raw[i] = c;
+            chars[i] = (i, c as char);
             i += 1;
         }
-        chars.push((7, '\0'));
+        chars[6] = (6, '\0');
         let start: usize = kani::any();
         let target: usize = kani::any();
         let slack: usize = kani::any();
-        kani::assume(start < target && target <= 7 && slack <= 3);
-        let r = choose_chunk_boundary(&chars, start, target, 7, slack);
-        assert!(r <= 7, "[C34] chunk boundary beyond the end of the text");
-        assert!(r <= core::cmp::min(target + slack, 7), "[C34] chunk boundary beyond the forward window");
-        if r > start {
-            // a boundary before the target must sit right after a newline, a sentence end or whitespace
-            if r < target {
-                let c = raw[r - 1];
-                assert!(c == b'\n' || c == b'.' || c == b' ', "[C34] chunk cut in the middle of a word although no separator was chosen");
-            }
+        kani::assume(start < target && target <= 6 && slack <= 3);
+        let r = choose_chunk_boundary(&chars, start, target, 6, slack);
+        assert!(r <= 6, "[C34] chunk boundary beyond the end of the text");
+        assert!(r <= core::cmp::min(target + slack, 6), "[C34] chunk boundary beyond the forward window");
+        if r > start && r < target {
+            let c = raw[r - 1];
+            assert!(c == b'\n' || c == b'.' || c == b' ', "[C34] chunk cut in the middle of a word although no separator was chosen");
         }
         kani::cover!(r > target, "boundary after the target");
         kani::cover!(r < target && r > start, "boundary before the target");
-        leak(chars);
     }
 }
